@@ -191,6 +191,16 @@ CLAIMED["C29"] = ("Proof over the generated path-struct API and the resolution k
     "dispatch over parent()/relPath(), not modelled), leaf path structs' own methods, builder-style key methods, uncompressed schemas (the generator "
     "rejects them), schemas outside the corpus.", "5 (C29)", "")
 
+CLAIMED["C33"] = ("Proof over the generated code: the working tree's generator is run on the key-type corpus and the compressed repository schema (thorough: also "
+    "the uncompressed one), and for every generated struct's PopulateDefaults (26 in the quick corpus) it is proved that (a) every leaf that has a YANG default - "
+    "taken from the schema through goyang, including typedef defaults - and was unset holds that default afterwards (string, integer, boolean leaves by value; "
+    "enumeration / identityref leaves through the generated value table), and (b) every leaf that was set keeps its pointer and value, and every leaf without a "
+    "default is unchanged whether set or not. Children, list entries and ordered-list entries are populated by their own PopulateDefaults, called by contract "
+    "(same template); the frame is type-level (`modifies subtree(t)`: fields of the struct's type and of the struct types below it). ygot.BuildEmptyTree is "
+    "a trusted library model (only nil struct-pointer fields of the subtree change). Not covered: defaults of union, decimal64, binary and leaf-list leaves "
+    "(listed per struct in the evidence), the second sentence of the property (a tree that validated still validates - ytypes.Validate is a reflection walker), "
+    "schemas outside the corpus.", "5 (C33)", "")
+
 NA = {
     "C01": "RFC7951 JSON round-trip is a relation between two reflection walkers (structJSON/jsonValue vs unmarshalStruct/unmarshalList) over arbitrary generated struct types; no function-level contract within this verifier's reach carries it (no reflect memory model). Scalar kernels are decided under C18/C19 where claimed.",
     "C02": "gNMI notification round-trip lives in the reflection walkers (findUpdatedLeaves, retrieveNode); not expressible as contracts the VC generator can check.",
